@@ -127,7 +127,36 @@ func (c *Case) Filtered(db int, key []byte) bool {
 			return true
 		}
 	}
+	// bidirectional snapshot replay with replaceHashTag (/repo f9044ee): an entry whose TARGET key lies in one of the
+	// tool's own namespaces is withheld like a control key found in the snapshot
+	if c.TargetReserved() {
+		for _, p := range ReservedPrefixes() {
+			if strings.HasPrefix(string(c.TKey(key)), p) {
+				return true
+			}
+		}
+	}
 	return false
+}
+
+// TargetReserved: the worker loops also ask the reserved prefixes of the key an entry is replayed TO (replaceHashTag on):
+// rdbReplayBisync since /repo f9044ee, rdbReplay since /repo e867911. Modes: "wplain" / "send" run rdbReplay, "bisync" /
+// "sendbisync" run rdbReplayBisync; "plain" is rdbrestore.RdbReplay.Replay called directly - no loop, no filter.
+func (c *Case) TargetReserved() bool {
+	// … and, since the plain-path repair /repo e867911 (session 5, C13 owner), rdbReplay too: every mode that goes through a
+	// worker loop of the syncer; only "plain" (rdbrestore.Replay called directly, no worker loop) does not ask
+	return c.HashTag && c.Mode != "plain"
+}
+
+func (c *Case) tresTok() string {
+	if !c.TargetReserved() {
+		return ""
+	}
+	var ps []string
+	for _, p := range ReservedPrefixes() {
+		ps = append(ps, vfutil.HexS(p))
+	}
+	return " tres=" + strings.Join(ps, ",")
 }
 
 // Cell: the target cell a snapshot key is replayed to.
@@ -282,8 +311,73 @@ func ExpireAtOf(code int) uint64 {
 		return 1000 // long past
 	case 2:
 		return BubbleNowMs + 3600_123
+	case 3:
+		return BubbleNowMs // the boundary: expireAt == the replaying tool's now (the bubble clock stands still while no one sleeps)
+	case 4:
+		return BubbleNowMs + 1 // 1 ms ahead
+	case 5:
+		return BubbleNowMs - 1 // 1 ms past
 	}
 	return 0
+}
+
+// ExhaustiveEmpty: a collection with NO element (length 0 in the file: a linked list, a set, a hash table - Redis does not
+// save one, older versions and other writers could): the real loader delivers one entry whose expansion is EMPTY.
+func ExhaustiveEmpty(mode string) []*Case {
+	var out []*Case
+	for _, ty := range []int{1, 2, 4} {
+		for _, pol := range []string{"replace", "ignore", "error"} {
+			for _, restore := range []bool{false, true} {
+				for _, exp := range []int{0, 2} {
+					for _, held := range []int{0, 1} {
+						c := &Case{Mode: mode, Pol: pol, Restore: restore, MaxBulk: 1 << 29, Ver: "7.0.0",
+							KVs: []KVSpec{{Key: vfutil.HexS("a"), Type: 0, Str: vfutil.HexS("1")}, {Key: vfutil.HexS("em"), Type: ty, Exp: exp},
+								{Key: vfutil.HexS("z"), Type: 0, Str: vfutil.HexS("2")}}}
+						if held == 1 {
+							c.Pre = []Pre{{Key: vfutil.HexS("em"), Kind: "string", TTL: 60000}}
+						}
+						out = append(out, c)
+					}
+				}
+			}
+		}
+	}
+	return out
+}
+
+// ExhaustiveExpiry: the boundary of `now >= e.ExpireAt → ttl 1 ms` on both paths (RESTORE ttl argument / PEXPIRE after the
+// expansion), one and several chunks, every policy, key held (with its own TTL) or not: expireAt = now, now + 1, now - 1.
+func ExhaustiveExpiry(mode string) []*Case {
+	var out []*Case
+	for _, exp := range []int{3, 4, 5} {
+		for _, pol := range []string{"replace", "ignore", "error"} {
+			for _, restore := range []bool{false, true} {
+				for _, ty := range []int{0, 4} {
+					for _, held := range []int{0, 1, 2} {
+						kv := KVSpec{Key: vfutil.HexS("xk"), Type: ty, Exp: exp}
+						thr := 0
+						if ty == 0 {
+							kv.Str = vfutil.HexS("val")
+						} else {
+							kv.Items = []string{vfutil.HexS("f1"), vfutil.HexS("v1"), vfutil.HexS("f2"), vfutil.HexS("v2"), vfutil.HexS("f3"), vfutil.HexS("v3")}
+							if !restore {
+								thr = 1
+							}
+						}
+						c := &Case{Mode: mode, Pol: pol, Restore: restore, Thr: thr, MaxBulk: 1 << 29, Ver: "7.0.0", KVs: []KVSpec{kv}}
+						switch held {
+						case 1:
+							c.Pre = []Pre{{Key: vfutil.HexS("xk"), Kind: "string"}}
+						case 2:
+							c.Pre = []Pre{{Key: vfutil.HexS("xk"), Kind: "hash", TTL: 60000}}
+						}
+						out = append(out, c)
+					}
+				}
+			}
+		}
+	}
+	return out
 }
 
 func (c *Case) KVList() []KV {
@@ -584,6 +678,7 @@ func OpLine(name string, idx int, c *Case, r *Run, mode string) (string, []DK) {
 		}
 		rht += " fpre=" + strings.Join(append(ps, c.FPre...), ",")
 	}
+	rht += c.tresTok()
 	op := fmt.Sprintf(name+" tag=%d"+rht+" mode=%s pol=%s restore=%s maxbulk=%d ver5=%s now=%d pre=%s bad=%s fin=%s ents=%s", idx, mode, c.Pol[:1],
 		b01(c.Restore), c.MaxBulk, ver5, int64(BubbleNowMs), join(pre, ","), join(c.Bad, ","), join(fin, ","), join(ents, ";"))
 	return op, ks
@@ -615,6 +710,11 @@ func Emit(s *vfutil.Session, idx int, c *Case, r *Run) {
 // expected value of a snapshot key on the target, from the generator's spec
 // (never from the code under test)
 func ExpectVal(kv KV, viaRestore bool, now int64) *vfdoubles.Val {
+	// a collection without elements does not exist in Redis: replayed with native commands (none), the key is ABSENT
+	// afterwards - whatever it held before under replace (the snapshot's value is "no value")
+	if !viaRestore && kv.Type >= 1 && kv.Type <= 4 && len(kv.Items) == 0 && len(kv.Raw) == 0 {
+		return nil
+	}
 	v := &vfdoubles.Val{}
 	if kv.ExpireAt != 0 {
 		if int64(kv.ExpireAt) <= now {
@@ -1298,6 +1398,7 @@ func EmitRoute(s *vfutil.Session, idx int, c *Case, r *Run) bool {
 		ps = append(ps, vfutil.HexS(p))
 	}
 	tok += " fpre=" + strings.Join(append(ps, c.FPre...), ",")
+	tok += c.tresTok()
 	s.Op(fmt.Sprintf("c20route tag=%d n=%d%s ents=%s", idx, c.Parallel, tok, strings.Join(ents, ";")),
 		fmt.Sprintf("#%d w %s", idx, strings.Join(out, " ")))
 	return true
@@ -1441,7 +1542,7 @@ func genKV(r *vfutil.Rand, i int, dbs int) KVSpec {
 	if r.Chance(1, 30) {
 		key = "" // the empty string is a valid Redis key
 	}
-	kv := KVSpec{Key: vfutil.HexS(key), Type: vfutil.Pick(r, []int{0, 0, 1, 2, 3, 4, 4, 4}), Exp: vfutil.Pick(r, []int{0, 0, 1, 2})}
+	kv := KVSpec{Key: vfutil.HexS(key), Type: vfutil.Pick(r, []int{0, 0, 1, 2, 3, 4, 4, 4}), Exp: vfutil.Pick(r, []int{0, 0, 0, 1, 1, 2, 2, 2, 3, 4, 5})}
 	if r.Chance(1, 25) {
 		kv.Type = 7 // a module value: RESTORE or nothing
 		return kv
@@ -1785,6 +1886,66 @@ func BackPressure(mode string) []*Case {
 	return out
 }
 
+// BackPressureFail: a replay worker FAILS (policy error on a held key early in the stream; a module value that cannot be
+// RESTOREd) while the pipes hold 1-2 entries per worker, the target is slow and 20+ entries are still to be distributed:
+// the distributor is blocked on the failed worker's full pipe (or any other) at that moment. SendRdb must RETURN (the
+// cancel reaches the blocked send), the worker's error must be what it returns, held cells stay untouched.
+func BackPressureFail(mode string) []*Case {
+	var out []*Case
+	for _, kind := range []string{"exists", "module"} {
+		for _, par := range []int{1, 2, 3, 4} {
+			for _, mult := range []int{1, 2} {
+				for _, at := range []int{0, 3} {
+					pol := "error"
+					if kind == "module" {
+						pol = []string{"replace", "ignore"}[(par+mult)%2]
+					}
+					c := &Case{Mode: mode, Pol: pol, Restore: false, Thr: 1, MaxBulk: 1 << 29, Ver: "7.0.0", Parallel: par,
+						PipeSize: par * mult, Slow: 1}
+					for i := 0; i < 24; i++ {
+						db := 0
+						if i >= 15 {
+							db = 1
+						}
+						c.KVs = append(c.KVs, simpleKV(db, fmt.Sprintf("bf%d", i), []int{0, 4, 1}[i%3], fmt.Sprintf("W%d", i), 0))
+					}
+					if kind == "exists" {
+						cell := c.Cell(c.KVs[at])
+						c.Pre = append(c.Pre, Pre{DB: cell.DB, Key: vfutil.HexS(cell.Key), Kind: "list", TTL: 5000})
+						cell2 := c.Cell(c.KVs[20]) // a second held key far behind: must stay untouched whoever reaches it
+						c.Pre = append(c.Pre, Pre{DB: cell2.DB, Key: vfutil.HexS(cell2.Key), Kind: "hash"})
+					} else {
+						c.KVs[at] = KVSpec{Key: vfutil.HexS(fmt.Sprintf("bf%d", at)), Type: 7}
+					}
+					out = append(out, c)
+				}
+			}
+		}
+	}
+	return out
+}
+
+// CheckTerminated: the real SendRdb returned (Final "hang" = it had not returned after 10 minutes of VIRTUAL time, i.e.
+// every goroutine of the run was blocked for good), and a failure it had to report is the worker's own error.
+func CheckTerminated(s *vfutil.Session, c *Case, r *Run, wantErr string) bool {
+	if r.Final == "hang" {
+		viol(s, "sendrdb-hang", "SendRdb did not return: distributor / workers blocked for ever after a worker's failure (virtual time ran 10 minutes with no progress)", c)
+		return false
+	}
+	if wantErr != "" {
+		s.Count("mon_fail_backpressure_" + wantErr)
+		if r.Final == "ok" {
+			viol(s, "error-not-raised", "a replay worker failed ("+wantErr+") under back-pressure: SendRdb returned nil", c)
+			return false
+		}
+		if r.Final != wantErr {
+			viol(s, "error-lost", fmt.Sprintf("a replay worker failed (%s) under back-pressure: SendRdb returned %s: %s", wantErr, r.Final, r.ErrText), c)
+			return false
+		}
+	}
+	return true
+}
+
 // GenCollide: random colliding snapshots and filters (simple values: string / list / hash).
 func GenCollide(r *vfutil.Rand, mode string) *Case {
 	ty := func() int { return vfutil.Pick(r, []int{0, 1, 4, 4}) }
@@ -1871,7 +2032,8 @@ func ExhaustiveTwins(mode string) []*Case {
 // policy × restore.
 func ExhaustiveHashTag(mode string) []*Case {
 	var out []*Case
-	for _, key := range []string{"{tag}key", "ke{y}", "}k{", "{}", "}{"} {
+	// the last three are rewritten INTO the tool's namespaces: withheld by rdbReplayBisync (f9044ee) and rdbReplay (e867911), replayed only by RdbReplay.Replay called directly (mode plain)
+	for _, key := range []string{"{tag}key", "ke{y}", "}k{", "{}", "}{", "{redis-gunyu-bisync:}x", "{/redis-gunyu}y", "redis-gunyu-{checkpoint}z"} {
 		for _, ty := range []int{0, 1, 4, 15} {
 			for _, pol := range []string{"replace", "ignore", "error"} {
 				for _, restore := range []bool{false, true} {
